@@ -23,7 +23,7 @@ CALIBRATED_MAX_RATIO = 1.0
 
 # CPU-time limit (RLIMIT_CPU -> SIGXCPU): second net for loops that have no H1 site.  Generous by three orders of magnitude:
 # under ASan the tools need 0.01-0.1 s CPU for inputs below 100 kB and 0.5-5 s for the 2 MB shipped schemas (exp2cxx).
-CPU_A = 20
+CPU_A = 10
 CPU_BYTES_PER_S = 10000
 
 MAX_RC = 3          # "small positive": the tools use 1 (errors in input) and 2 (usage / cannot open)
